@@ -74,7 +74,9 @@
 //     w)` — an inner slice is never stored a second time either); `append([]T{…}, s...)` builds a fresh slice;
 //     `x = append(x[:i], x[i+1:]...)` (exactly this shape, i a variable) removes element i: whatever the capacity,
 //     Go panics unless 0 <= i and i+1 <= len(x) — x[i+1:] is checked against the LENGTH — and otherwise the result
-//     is x without its i-th element; `copy(dst, src)`, `copy(dst[l:h], src[l2:h2])` store into dst; a slice
+//     is x without its i-th element; `x = append(x[:i], append([]T{v…}, x[i:]...)...)` inserts v… before position
+//     i: the inner append builds a FRESH slice before the outer one writes, Go panics unless 0 <= i <= len(x) (x[i:]
+//     is checked against the length), and otherwise the result is x[:i] ++ [v…] ++ x[i:]; `copy(dst, src)`, `copy(dst[l:h], src[l2:h2])` store into dst; a slice
 //     EXPRESSION s[l:h] is allowed only as the source of copy / append and in the removal shape; a nil slice is the
 //     empty one (comparing a slice with nil is refused, so they cannot be told apart);
 //   - a fixed-size array [N]T is a VALUE in Go — assignment, parameter passing and `range` copy it — so it is an
@@ -82,6 +84,12 @@
 //   - a variadic parameter `vals ...T` is a slice parameter the function only reads (assigning to its elements is
 //     refused: the caller would see it for `f(xs...)` and not for `f(a, b)`); `f(a, b)` passes a fresh `#[a, b]`;
 //   - a constructor declared to return an interface may return a local variable that holds a fresh `&S{…}`;
+//   - dynamic dispatch through an interface of the package is resolved, where the dynamic type is known, by the
+//     source rewriting of devirt.go (its header has the three rules and their justification; the generated file
+//     lists what was applied).  A parameter of type *S that results from it is READ-ONLY (place refuses stores through
+//     a struct parameter) and accepted only in methods that do not modify their receiver either, since the two may be
+//     the same object; objects passed to a variadic `...*S` are likewise only read (no store to the elements of the
+//     parameter, no store of an element, no modifying method on the range variable that holds one);
 //   - no package-level variables, maps, floats, channels, closures, defer, goto.
 //
 // Random generators.  A `*rand.Rand` (math/rand) is the VALUE `Go.Rand`: the stream of the draws the generator
@@ -314,6 +322,7 @@ func main() {
 	skipList := flag.String("skip", "", "comma-separated functions (Name or Recv.Method) NOT translated")
 	ns := flag.String("ns", "", "Lean namespace of the generated definitions")
 	out := flag.String("out", "", "output .lean file")
+	selfList := flag.String("self", "", "comma-separated interfaces of the package: in a method of a struct S, a parameter of such an interface type is taken to hold a *S (see devirt.go)")
 	flag.Parse()
 	if *pkgDir == "" || *fileList == "" || *ns == "" || *out == "" {
 		die("-pkg, -files, -ns and -out are required")
@@ -337,15 +346,69 @@ func main() {
 	for _, f := range strings.Split(*fileList, ",") {
 		want[strings.TrimSpace(f)] = true
 	}
-	var typeErrs []string
-	cfg := types.Config{Importer: imp, Error: func(e error) {
-		// a type error matters only if it is in a file we translate (other files may import packages
-		// that cannot be loaded offline); an untyped expression in a translated body fails loudly later
-		if te, ok := e.(types.Error); ok && want[filepath.Base(te.Fset.Position(te.Pos).Filename)] {
-			typeErrs = append(typeErrs, e.Error())
+	skipNames := map[string]bool{}
+	for _, n := range strings.Split(*skipList, ",") {
+		if n = strings.TrimSpace(n); n != "" {
+			skipNames[n] = true
 		}
-	}}
-	pkg, _ := cfg.Check(mod+"/"+*pkgDir, fset, files, info)
+	}
+	// inSkipped: the position lies inside a function that is not translated
+	inSkipped := func(pos token.Pos) bool {
+		for _, f := range files {
+			if f.Pos() <= pos && pos <= f.End() {
+				for _, d := range f.Decls {
+					if fd, ok := d.(*ast.FuncDecl); ok && fd.Pos() <= pos && pos <= fd.End() {
+						name := fd.Name.Name
+						if fd.Recv != nil {
+							name = recvTypeName(fd) + "." + name
+						}
+						return skipNames[name]
+					}
+				}
+			}
+		}
+		return false
+	}
+	dv := &devirt{self: map[string]bool{}}
+	for _, n := range strings.Split(*selfList, ",") {
+		if n = strings.TrimSpace(n); n != "" {
+			dv.self[n] = true
+		}
+	}
+	for _, f := range files {
+		if want[filepath.Base(fset.Position(f.Pos()).Filename)] {
+			dv.files = append(dv.files, f)
+		}
+	}
+	dv.params()
+	var typeErrs []string
+	var pkg *types.Package
+	for round := 0; ; round++ {
+		*info = types.Info{
+			Types:     map[ast.Expr]types.TypeAndValue{},
+			Defs:      map[*ast.Ident]types.Object{},
+			Uses:      map[*ast.Ident]types.Object{},
+			Instances: map[*ast.Ident]types.Instance{},
+		}
+		typeErrs = nil
+		cfg := types.Config{Importer: imp, Error: func(e error) {
+			// a type error matters only if it is in a file we translate (other files may import packages that cannot
+			// be loaded offline) and not inside a function that is not translated (devirtualisation may break those);
+			// an untyped expression in a translated body fails loudly later
+			if te, ok := e.(types.Error); ok && want[filepath.Base(te.Fset.Position(te.Pos).Filename)] && !inSkipped(te.Pos) {
+				typeErrs = append(typeErrs, e.Error())
+			}
+		}}
+		pkg, _ = cfg.Check(mod+"/"+*pkgDir, fset, files, info)
+		if round > 20 {
+			die("devirtualisation does not reach a fixpoint")
+		}
+		c1 := dv.results(info, pkg)
+		c2 := dv.iterators(info, pkg)
+		if !c1 && !c2 {
+			break
+		}
+	}
 	if len(typeErrs) > 0 {
 		die("type errors in the files to translate:\n  %s", strings.Join(typeErrs, "\n  "))
 	}
@@ -388,6 +451,10 @@ func main() {
 	b.WriteString("Go `int` is the unbounded `Int` (overflow is not modelled).\n")
 	if len(skippedNames) > 0 {
 		fmt.Fprintf(&b, "NOT translated (excluded by the caller with -skip): %s\n", strings.Join(skippedNames, ", "))
+	}
+	sort.Strings(dv.applied)
+	for _, a := range dv.applied {
+		fmt.Fprintf(&b, "DEVIRTUALISED (extract/go2lean/devirt.go): %s\n", a)
 	}
 	b.WriteString("-/\nset_option linter.unusedVariables false\n")
 	fmt.Fprintf(&b, "namespace %s\nopen AlgoVerif\n\n", *ns)
